@@ -112,7 +112,7 @@ def spec_desc(draw, depth=3, last=True, want_fixed=False):
         d["p"] = draw(st.sampled_from(["U8", "U16", "S16", "U32"]))
         d["strict"] = draw(st.booleans())
     elif kind == "int_flag":
-        d["p"] = draw(st.sampled_from(["U8", "U16", "U32"]))
+        d["p"] = draw(st.sampled_from(["U8", "U16", "U32", "S8", "S16", "S32"]))
     elif kind in ("bitfield", "bitfield_dc"):
         d["p"] = draw(st.sampled_from(["U8", "U16", "U32"]))
         total = PRIMS[d["p"]].calc_size() * 8
@@ -442,7 +442,7 @@ def values(d):
         members = st.sampled_from([int(m) for m in E1 if lo <= int(m) <= hi])
         return members if d["strict"] else st.one_of(members, st.integers(max(lo, 0), hi))
     if k == "int_flag":
-        return ints(0, prim_range(d["p"])[1])
+        return ints(*prim_range(d["p"]))       # on a signed field the sign bit is one more bit no member names
     if k in ("bitfield", "bitfield_dc"):
         return st.tuples(*[st.integers(0, (1 << b) - 1) for b in d["bits"]]).map(list)
     if k == "bool":
@@ -515,7 +515,8 @@ def rich(d, v, spec=None, pod=False, reading=False):
             return E1(v).name if pod else E1(v)
         return v
     if k == "int_flag":
-        return flags_pod_ref(F1, v) if pod else F1(v)
+        # the flag class cannot hold a negative number without changing its value: those stay integers in object form
+        return flags_pod_ref(F1, v) if pod else (F1(v) if v >= 0 else v)
     if k == "string_enum":
         return v if pod else SE1(v)
     if k == "ctx_adapter":
